@@ -79,6 +79,8 @@ pub struct UnitEnv {
     pub sfail: VecDeque<bool>,
     pub bdt: VecDeque<(i128, i128)>,
     pub during: Vec<(usize, bool)>,
+    /// the requests of `during` arrive while this HTTP exchange of the check (0-based) is in flight
+    pub during_at: usize,
     pub rallow: VecDeque<bool>,
     pub rnext: VecDeque<String>,
     pub rsteps: VecDeque<(Step, (i128, i128))>,
@@ -128,6 +130,8 @@ pub struct Hub {
     pub boundaries: Vec<Snapshot>,
     pub jit_log: Vec<Vec<i128>>,
     pub during_done: bool,
+    pub http_seen: usize,
+    pub during_log: Vec<bool>,
     pub mock: Option<MockHook>,
 }
 
@@ -160,7 +164,7 @@ impl Hub {
         Hub { trace: vec![], wall, mono, env: UnitEnv::default(), pending: BTreeMap::new(), committed: BTreeMap::new(),
             released: BTreeSet::new(), next_gate: 0, http_waiting: None, timers: vec![], wakers: vec![], in_check: false,
             backoffs_in_check: 0, jitters: vec![], cup_sign: None, last_uc_request: None, last_etag_sig: None, last_resp_body: None,
-            old_etags: vec![], boundary: None, dropped_timers: vec![], reboot_phase: false, keys: vec![], units: VecDeque::new(), boundaries: vec![], jit_log: vec![], during_done: false, mock: None }
+            old_etags: vec![], boundary: None, dropped_timers: vec![], reboot_phase: false, keys: vec![], units: VecDeque::new(), boundaries: vec![], jit_log: vec![], during_done: false, http_seen: 0, during_log: vec![], mock: None }
     }
     pub fn log(&mut self, s: String) { self.trace.push(s); }
     pub fn boundary_phase_reboot(&self) -> bool { self.reboot_phase }
@@ -177,7 +181,9 @@ impl Hub {
         self.env = self.units.pop_front().unwrap_or(UnitEnv { next: "M0".into(), allow: "toosoon".into(), ..UnitEnv::default() });
         self.reboot_phase = false;
         self.in_check = false;
+        self.during_log.push(self.during_done);
         self.during_done = false;
+        self.http_seen = 0;
         self.timers.clear();
     }
     pub fn new_gate(&mut self) -> usize { let g = self.next_gate; self.next_gate += 1; g }
